@@ -1,6 +1,7 @@
 import PiqpProofs.Basic
 import PiqpModel.Api
 import PiqpProofs.Garbage
+import PiqpProofs.Generated.Statics
 
 /-!
 # C07 — results are a function of the inputs only
@@ -22,6 +23,13 @@ theorem instances_independent (cs : Consts K) (sqrtF : K → K) (poison : K)
     stepA (stepB (a, b)) = stepB (stepA (a, b)) := by
   simp
 
+
+/-- **no hidden static state in the source** (tie C, regenerated on every run by `translate/statics.py`): every mutable
+    variable with static storage duration in `include/piqp` and `interfaces/c` lives in the `PIQP_VERIF` hook header.  This is
+    what makes the model's shape — `apiStep` reads the state of *this* instance and nothing else — faithful to the code, and
+    with it `instances_independent` (other instances, before or concurrently, cannot influence a result). -/
+theorem no_hidden_static_state :
+    Piqp.Gen.mutableStatics.all (fun e => e.1 == Piqp.Gen.staticsHookHeader) = true := by decide
 
 /-! ## results do not depend on the content of uninitialised memory
 
